@@ -757,6 +757,14 @@ func (c *Connection) write(ctx context.Context, msg Message) error {
 		if req, ok := msg.(*Request); ok && !req.IsCall() && s.outgoingNotifications > 0 {
 			return
 		}
+		// Also allow responses while the connection is merely draining after
+		// an explicit Close (the transport is not known to be broken): Close
+		// waits for in-flight handlers, and their responses must remain
+		// deliverable. Otherwise two peers that close concurrently, each with
+		// a call outstanding at the other, wait for each other forever.
+		if _, ok := msg.(*Response); ok && s.readErr == nil && s.writeErr == nil {
+			return
+		}
 		err = s.shuttingDown(ErrServerClosing)
 	})
 	if err == nil {
